@@ -92,8 +92,61 @@ def _mentions(e: ast.AST, name: str) -> bool:
     return any(isinstance(x, ast.Name) and x.id == name for x in ast.walk(e))
 
 
+# `x = a if c else b` and `if c: x = a` / `else: x = b` are the same program: a rule never inspects "the" definition of a local or a conditional expression
+# as such, it inspects the alternatives of a value — one per reaching definition and per arm of a conditional expression, each with the guards it is made under.
+def _arms(v: Optional[ast.AST], guards: Optional[List[Tuple[ast.AST, bool, Optional[Node]]]] = None) -> List[Tuple[Optional[ast.AST], List[Tuple[ast.AST, bool, Optional[Node]]]]]:
+    """(alternative, guards) for a value: the arms of a conditional expression (nested ones flattened) under `guards` plus the arm's own tests
+    (leading negations folded into the polarity, as CFG.guards_at does); the value itself otherwise."""
+    guards = list(guards or [])
+    if not isinstance(v, ast.IfExp):
+        return [(v, guards)]
+    t, pol = v.test, True
+    while isinstance(t, ast.UnaryOp) and isinstance(t.op, ast.Not):
+        t, pol = t.operand, not pol
+    return _arms(v.body, guards + [(t, pol, None)]) + _arms(v.orelse, guards + [(t, not pol, None)])
+
+
+def _alternatives(cfg: CFG, n: Optional[Node], name: str) -> List[Tuple[Node, Optional[ast.AST], List[Tuple[ast.AST, bool, Optional[Node]]]]]:
+    """(definition node, value, guards) for everything `name` may hold at n (value None for an opaque definition)."""
+    out = []
+    for d in (cfg.defs_reaching(n, name) if n is not None else []):
+        for v, gs in _arms(cfg.value_of_def(d, name), cfg.guards_at(d)):
+            out.append((d, v, gs))
+    return out
+
+
 def _def_values(cfg: CFG, n: Optional[Node], name: str) -> List[Optional[ast.AST]]:
-    return [cfg.value_of_def(d, name) for d in cfg.defs_reaching(n, name)] if n is not None else []
+    return [v for _, v, _ in _alternatives(cfg, n, name)]
+
+
+def _expr_guards(cfg: CFG, x: ast.AST) -> List[Tuple[ast.AST, bool, Optional[Node]]]:
+    """Everything known where the expression x is evaluated: the `if` tests around its statement (CFG.guards_at) and the tests of the conditional
+    expressions it is an arm of."""
+    n = cfg.node_of(x)
+    if n is None:
+        return []
+
+    def go(e: ast.AST, acc):
+        if e is x:
+            return acc
+        if isinstance(e, ast.IfExp):
+            t, pol = e.test, True
+            while isinstance(t, ast.UnaryOp) and isinstance(t.op, ast.Not):
+                t, pol = t.operand, not pol
+            for ch, extra in ((e.test, []), (e.body, [(t, pol, None)]), (e.orelse, [(t, not pol, None)])):
+                r = go(ch, acc + extra)
+                if r is not None:
+                    return r
+            return None
+        for ch in ast.iter_child_nodes(e):
+            r = go(ch, acc)
+            if r is not None:
+                return r
+        return None
+    out = list(cfg.guards_at(n))
+    for root in n.exprs():
+        out += go(root, []) or []
+    return out
 
 
 def _is_zero(v: Optional[ast.AST]) -> bool:
@@ -186,9 +239,8 @@ def _consumers(ck: Check, repo: Repo) -> None:
             if not c.args or not isinstance(c.args[0], ast.Name) or n is None:
                 return False
             out = True
-            dn = cfg.defs_reaching(n, c.args[0].id)
-            for d in dn:
-                v = cfg.value_of_def(d, c.args[0].id)
+            dn = _alternatives(cfg, n, c.args[0].id)
+            for d, v, _ in dn:
                 if not (isinstance(v, ast.Call) and isinstance(v.func, ast.Attribute) and v.func.attr == "sample" and isinstance(v.func.value, ast.Name)):
                     return False
                 sv = _def_values(cfg, d, v.func.value.id)
@@ -242,6 +294,21 @@ def _truth_under(e: Optional[ast.AST], guards) -> Optional[bool]:
     return None
 
 
+def _made_elsewhere(cfg: CFG, d: Node, dguards, at: Node, guards) -> bool:
+    """The definition d is made under the opposite outcome of a test whose outcome is known at `at`: it does not supply the value read there.
+    (`x = f(k=True if c else False)` ... `if c: read x` spelled as `if c: x = f(k=True)` / `else: x = f(k=False)` ... `if c: read x`.)  The two tests are the
+    same expression over plain names, none of which is rebound between the definition and the read."""
+    known = {(ast.unparse(g), pol): g for g, pol, _ in guards}
+    for g, pol, _ in dguards:
+        other = known.get((ast.unparse(g), not pol))
+        if other is None or any(isinstance(x, (ast.Call, ast.Attribute, ast.Subscript, ast.NamedExpr)) for x in ast.walk(g)):
+            continue
+        names = {x.id for x in ast.walk(g) if isinstance(x, ast.Name)}
+        if all({n.id for n in cfg.defs_reaching(d, nm)} == {n.id for n in cfg.defs_reaching(at, nm)} for nm in names):
+            return True
+    return False
+
+
 def _sampled_keys(ck: Check, repo: Repo) -> None:
     """The sampled indices are only in a batch when they were asked for: ReplayBuffer.sample adds "idxs" under `return_idx`, the
     prioritised buffer always.  Every read batch["idxs"] inside a training loop gets its batch from a sample call that requests them
@@ -269,15 +336,16 @@ def _sampled_keys(ck: Check, repo: Repo) -> None:
             if at is None:
                 continue
             nreads += 1
-            guards = cfg.guards_at(at)
+            guards = _expr_guards(cfg, sub)
             bad = None
-            for d in cfg.defs_reaching(at, sub.value.id):
-                v = cfg.value_of_def(d, sub.value.id)
+            for d, v, dguards in _alternatives(cfg, at, sub.value.id):
+                if _made_elsewhere(cfg, d, dguards, at, guards):
+                    continue
                 if not (isinstance(v, ast.Call) and last_attr(v) == "sample"):
                     bad = f"the batch comes from `{short(v, 60) if v is not None else d.kind}`"
                     continue
                 kw = get_kw(v, "return_idx", None)
-                if kw is None and len(v.args) >= 2 and any(ast.unparse(g) == "per" and pol for g, pol, _ in cfg.guards_at(d)):
+                if kw is None and len(v.args) >= 2 and any(ast.unparse(g) == "per" and pol for g, pol, _ in dguards):
                     continue  # sample(batch_size, beta): the prioritised buffer, on the `per` path
                 if _truth_under(kw, guards) is not True:
                     bad = f"`{short(v, 80)}` does not request the indices on this path"
@@ -300,7 +368,7 @@ def _id_class(cfg: CFG, at: Node, e: ast.AST, depth: int = 0) -> Optional[str]:
     if isinstance(e, ast.Call) and e.args:
         return _id_class(cfg, at, e.args[0], depth)
     if isinstance(e, ast.Name) and depth < 3:
-        cls = {_id_class(cfg, d, v, depth + 1) for d in cfg.defs_reaching(at, e.id) for v in [cfg.value_of_def(d, e.id)] if v is not None}
+        cls = {_id_class(cfg, d, v, depth + 1) for d, v, _ in _alternatives(cfg, at, e.id) if v is not None}
         return next(iter(cls)) if len(cls) == 1 else None
     return None
 
@@ -315,18 +383,19 @@ def _reward_class(cfg: CFG, at: Node, e: ast.AST) -> Optional[str]:
             a = d.ast if d.kind == "stmt" else None
             if isinstance(a, ast.AugAssign) and isinstance(a.target, ast.Subscript):
                 continue  # filling the entries of the dictionary, not a new dictionary
-            if isinstance(a, ast.Assign) and isinstance(a.value, ast.DictComp) and len(a.value.generators) == 1:
-                # {id: 0 for id in IDS}: one entry per element of IDS
-                out.add(_id_class(cfg, d, a.value.generators[0].iter))
-            elif isinstance(a, ast.Assign) and isinstance(a.value, ast.Call):
-                if last_attr(a.value) == "sum_shared_rewards":
-                    out.add("shared")
-                elif last_attr(a.value) == "step" and isinstance(a.targets[0], ast.Tuple):
-                    out.add("agents")
+            for v, _ in (_arms(a.value) if isinstance(a, ast.Assign) else [(None, [])]):
+                if isinstance(v, ast.DictComp) and len(v.generators) == 1:
+                    # {id: 0 for id in IDS}: one entry per element of IDS
+                    out.add(_id_class(cfg, d, v.generators[0].iter))
+                elif isinstance(v, ast.Call):
+                    if last_attr(v) == "sum_shared_rewards":
+                        out.add("shared")
+                    elif last_attr(v) == "step" and isinstance(a.targets[0], ast.Tuple):
+                        out.add("agents")
+                    else:
+                        out.add(None)
                 else:
                     out.add(None)
-            else:
-                out.add(None)
         return next(iter(out)) if len(out) == 1 else None
     return None
 
@@ -353,17 +422,15 @@ def _score_widths(ck: Check, repo: Repo) -> None:
                             widths.append((d, w.args[0]))
             if not widths:
                 continue
-            # the increment: np.array(list(R.values())) on its per-agent arm
+            # the increment: np.array(list(R.values())) on its per-agent arm — the alternative of a choice (one definition per branch of an if / else or
+            # one arm of a conditional expression, whichever way it is spelled) that does not sum over the agents
             rws = []
-            for d in cfg.defs_reaching(node, a.value.id):
-                v = cfg.value_of_def(d, a.value.id)
-                if not isinstance(v, ast.IfExp):
-                    continue
-                arm = [x for x in (v.body, v.orelse) if not any(isinstance(c, ast.Call) and last_attr(c) == "sum" for c in ast.walk(x))]
-                for x in arm:
-                    for c in ast.walk(x):
-                        if isinstance(c, ast.Call) and isinstance(c.func, ast.Attribute) and c.func.attr == "values" and not c.args:
-                            rws.append((d, c.func.value))
+            alts = [(d, v) for d, v, _ in _alternatives(cfg, node, a.value.id) if v is not None]
+            arm = [(d, x) for d, x in alts if not any(isinstance(c, ast.Call) and last_attr(c) == "sum" for c in ast.walk(x))]
+            for d, x in arm:
+                for c in ast.walk(x):
+                    if isinstance(c, ast.Call) and isinstance(c.func, ast.Attribute) and c.func.attr == "values" and not c.args:
+                        rws.append((d, c.func.value))
             if not rws:
                 continue
             n += 1
@@ -390,13 +457,13 @@ def _guarded_reductions(ck: Check, repo: Repo) -> None:
             if at is None:
                 continue
             name = c.args[0].id
-            defs = [cfg.value_of_def(d, name) for d in cfg.defs_reaching(at, name)]
+            defs = _def_values(cfg, at, name)
             # the operand is a list built with a filter: it can be empty whatever the size of what it was built from
             if not defs or not all(isinstance(v, ast.ListComp) and any(g.ifs for g in v.generators) for v in defs):
                 continue
             n_sites += 1
-            tested = [g for g, pol, _ in cfg.guards_at(at) if pol and _tests_nonempty(g, name)]
-            others = [ast.unparse(g) for g, pol, _ in cfg.guards_at(at) if pol and not _tests_nonempty(g, name)]
+            tested = [g for g, pol, _ in _expr_guards(cfg, c) if pol and _tests_nonempty(g, name)]
+            others = [ast.unparse(g) for g, pol, _ in _expr_guards(cfg, c) if pol and not _tests_nonempty(g, name)]
             ck.ob("C20.12", fn, c, bool(tested), f"{fname}: `{short(c, 50)}` runs only when the filtered list it stacks is non-empty",
                   detail="" if tested else f"`{name}` is built with a filter and may be empty; the enclosing tests are {others[-2:]}, none of them tests `{name}`",
                   construct=f"{fname}: stack over the filtered list / its emptiness test")
@@ -627,7 +694,7 @@ def _population(ck: Check, repo: Repo) -> None:
             n = cfg.node_of(c)
             okp = dotted(get_kw(c, "population", 0)) == "pop" and isinstance(n.ast, ast.Assign) and dotted(n.ast.targets[0]) == "pop"
             ck.ob("C20.6", fn, c, okp, f"{lname}: the next generation replaces the population that was selected from")
-            gs = [ast.unparse(g) for g, pol, _ in cfg.guards_at(n) if pol]
+            gs = [ast.unparse(g) for g, pol, _ in _expr_guards(cfg, c) if pol]
             ck.ob("C20.6", fn, c, any("tournament" in g and "mutation" in g for g in gs), f"{lname}: only when both a tournament and mutations are configured")
             # evaluation precedes selection in the generation
             comps = _eval_comps(fn)
@@ -677,6 +744,8 @@ def _handles_single_env(fn: Fn, steps: List[ast.Call]) -> bool:
             flags |= consts(x.body, True) & consts(x.orelse, False)
         if isinstance(x, ast.Assign) and is_probe(x.value):
             flags |= {t.id for t in x.targets if isinstance(t, ast.Name)}
+        if isinstance(x, ast.Assign) and isinstance(x.value, ast.IfExp) and is_probe(x.value.test) and const_value(x.value.body) is True and const_value(x.value.orelse) is False:
+            flags |= {t.id for t in x.targets if isinstance(t, ast.Name)}  # the same choice spelled as a conditional expression
     tests = [x.test for x in ast.walk(fn.node) if isinstance(x, (ast.If, ast.IfExp, ast.While))]
     flag_tested = any(_name_in(y, flags) for t in tests for y in ast.walk(t))
     acted = {a.id for c in steps for a in c.args if isinstance(a, ast.Name)}
@@ -767,4 +836,39 @@ VARIANTS += [
     ("ma-learn-not-sampled", _TMA, "                    for _ in range(num_envs // agent.learn_step):\n                        # Sample replay buffer\n                        experiences = sampler.sample(agent.batch_size)\n                        # Learn according to agent's RL algorithm\n                        loss = agent.learn(experiences)",
      "                    for _ in range(num_envs // agent.learn_step):\n                        # Sample replay buffer\n                        experiences = sampler.sample(agent.batch_size)\n                        # Learn according to agent's RL algorithm\n                        loss = agent.learn(obs)", "fire", "C20.1"),
     ("cqn-keyed-by-constant-var", "agilerl/algorithms/cqn.py", "                experiences[key]\n                for key in", "                experiences[0]\n                for key in", "fire", "C20.1"),
+]
+# one verdict for both spellings of a two-way choice (conditional expression <-> if / else statement)
+VARIANTS += [
+    ('ma-on-policy-score-increment-as-statements-ok', 'agilerl/training/train_multi_agent_on_policy.py', '                    score_increment = (\n                        (\n                            np.sum(\n                                np.array(list(reward.values())).transpose(), axis=-1\n                            )[:, np.newaxis]\n                            if is_vectorised\n                            else np.sum(\n                                np.array(list(reward.values())).transpose(), axis=-1\n                            )\n                        )\n                        if sum_scores\n                        else np.array(list(shared_reward.values())).transpose()\n                    )\n',
+     '                    if sum_scores:\n                        if is_vectorised:\n                            score_increment = np.sum(np.array(list(reward.values())).transpose(), axis=-1)[:, np.newaxis]\n                        else:\n                            score_increment = np.sum(np.array(list(reward.values())).transpose(), axis=-1)\n                    else:\n                        score_increment = np.array(list(shared_reward.values())).transpose()\n', 'silent', None),
+    ('ma-on-policy-score-increment-statements-per-env-agent', 'agilerl/training/train_multi_agent_on_policy.py', '                    score_increment = (\n                        (\n                            np.sum(\n                                np.array(list(reward.values())).transpose(), axis=-1\n                            )[:, np.newaxis]\n                            if is_vectorised\n                            else np.sum(\n                                np.array(list(reward.values())).transpose(), axis=-1\n                            )\n                        )\n                        if sum_scores\n                        else np.array(list(shared_reward.values())).transpose()\n                    )\n',
+     '                    if sum_scores:\n                        if is_vectorised:\n                            score_increment = np.sum(np.array(list(reward.values())).transpose(), axis=-1)[:, np.newaxis]\n                        else:\n                            score_increment = np.sum(np.array(list(reward.values())).transpose(), axis=-1)\n                    else:\n                        score_increment = np.array(list(reward.values())).transpose()\n', 'fire', 'C20.13'),
+    ('maddpg-test-score-array-as-statement-ok', 'agilerl/algorithms/maddpg.py', '                scores = (\n                    np.zeros((num_envs, 1))\n                    if sum_scores\n                    else np.zeros((num_envs, len(self.agent_ids)))\n                )\n',
+     '                if sum_scores:\n                    scores = np.zeros((num_envs, 1))\n                else:\n                    scores = np.zeros((num_envs, len(self.agent_ids)))\n', 'silent', None),
+    ('maddpg-test-score-array-statement-per-shared-id', 'agilerl/algorithms/maddpg.py', '                scores = (\n                    np.zeros((num_envs, 1))\n                    if sum_scores\n                    else np.zeros((num_envs, len(self.agent_ids)))\n                )\n',
+     '                if sum_scores:\n                    scores = np.zeros((num_envs, 1))\n                else:\n                    scores = np.zeros((num_envs, len(self.shared_agent_ids)))\n', 'fire', 'C20.13'),
+    ('off-policy-next-state-swap-as-statement-ok', 'agilerl/training/train_off_policy.py', '                next_state = (\n                    obs_channels_to_first(next_state) if swap_channels else next_state\n                )\n',
+     '                if swap_channels:\n                    next_state = obs_channels_to_first(next_state)\n                else:\n                    next_state = next_state\n', 'silent', None),
+    ('off-policy-next-state-statement-swapped-on-the-wrong-arm', 'agilerl/training/train_off_policy.py', '                next_state = (\n                    obs_channels_to_first(next_state) if swap_channels else next_state\n                )\n',
+     '                if swap_channels:\n                    next_state = next_state\n                else:\n                    next_state = obs_channels_to_first(next_state)\n', 'fire', 'C20.11'),
+    ('on-policy-state-swap-as-expression-ok', 'agilerl/training/train_on_policy.py', '                    if swap_channels:\n                        state = obs_channels_to_first(state)\n\n                    # Get next action from agent\n',
+     '                    state = obs_channels_to_first(state) if swap_channels else state\n\n                    # Get next action from agent\n', 'silent', None),
+    ('on-policy-state-expression-swapped-on-the-wrong-arm', 'agilerl/training/train_on_policy.py', '                    if swap_channels:\n                        state = obs_channels_to_first(state)\n\n                    # Get next action from agent\n',
+     '                    state = state if swap_channels else obs_channels_to_first(state)\n\n                    # Get next action from agent\n', 'fire', 'C20.11'),
+    ('off-policy-indices-request-as-statements-ok', 'agilerl/training/train_off_policy.py', '                        else:\n                            experiences = sampler.sample(\n                                agent.batch_size,\n                                return_idx=True if n_step_memory is not None else False,\n                            )\n                            if n_step_memory is not None:\n                                n_step_experiences = n_step_sampler.sample(\n                                    experiences["idxs"]\n                                )\n                                loss, *_ = agent.learn(\n                                    experiences, n_experiences=n_step_experiences\n                                )\n                            else:\n                                loss = agent.learn(experiences)\n                                if isinstance(agent, RainbowDQN):\n                                    loss, *_ = loss\n\n                if loss is not None:',
+     '                        else:\n                            if n_step_memory is not None:\n                                experiences = sampler.sample(agent.batch_size, return_idx=True)\n                            else:\n                                experiences = sampler.sample(agent.batch_size, return_idx=False)\n                            if n_step_memory is not None:\n                                n_step_experiences = n_step_sampler.sample(\n                                    experiences["idxs"]\n                                )\n                                loss, *_ = agent.learn(\n                                    experiences, n_experiences=n_step_experiences\n                                )\n                            else:\n                                loss = agent.learn(experiences)\n                                if isinstance(agent, RainbowDQN):\n                                    loss, *_ = loss\n\n                if loss is not None:', 'silent', None),
+    ('off-policy-indices-request-statements-on-the-wrong-arm', 'agilerl/training/train_off_policy.py', '                        else:\n                            experiences = sampler.sample(\n                                agent.batch_size,\n                                return_idx=True if n_step_memory is not None else False,\n                            )\n                            if n_step_memory is not None:\n                                n_step_experiences = n_step_sampler.sample(\n                                    experiences["idxs"]\n                                )\n                                loss, *_ = agent.learn(\n                                    experiences, n_experiences=n_step_experiences\n                                )\n                            else:\n                                loss = agent.learn(experiences)\n                                if isinstance(agent, RainbowDQN):\n                                    loss, *_ = loss\n\n                if loss is not None:',
+     '                        else:\n                            if n_step_memory is not None:\n                                experiences = sampler.sample(agent.batch_size, return_idx=False)\n                            else:\n                                experiences = sampler.sample(agent.batch_size, return_idx=True)\n                            if n_step_memory is not None:\n                                n_step_experiences = n_step_sampler.sample(\n                                    experiences["idxs"]\n                                )\n                                loss, *_ = agent.learn(\n                                    experiences, n_experiences=n_step_experiences\n                                )\n                            else:\n                                loss = agent.learn(experiences)\n                                if isinstance(agent, RainbowDQN):\n                                    loss, *_ = loss\n\n                if loss is not None:', 'fire', 'C20.1'),
+    ('off-policy-selection-as-conditional-expression-ok', 'agilerl/training/train_off_policy.py', '        if tournament and mutation is not None:\n            pop = tournament_selection_and_mutation(\n                population=pop,',
+     '        pop = pop if not (tournament and mutation is not None) else tournament_selection_and_mutation(\n                population=pop,', 'silent', None),
+    ('off-policy-selection-expression-without-mutation-test', 'agilerl/training/train_off_policy.py', '        if tournament and mutation is not None:\n            pop = tournament_selection_and_mutation(\n                population=pop,',
+     '        pop = pop if not tournament else tournament_selection_and_mutation(\n                population=pop,', 'fire', 'C20.6'),
+    ('ma-stack-guarded-by-conditional-expression-ok', 'agilerl/training/train_multi_agent_off_policy.py', '            if pop_mean_scores:\n                mean_scores = np.stack(pop_mean_scores, axis=0)\n',
+     '            mean_scores = np.stack(pop_mean_scores, axis=0) if pop_mean_scores else None\n            if pop_mean_scores:\n', 'silent', None),
+    ('ma-stack-conditional-expression-on-the-unfiltered-list', 'agilerl/training/train_multi_agent_off_policy.py', '            if pop_mean_scores:\n                mean_scores = np.stack(pop_mean_scores, axis=0)\n',
+     '            mean_scores = np.stack(pop_mean_scores, axis=0) if pop_episode_scores else None\n            if pop_mean_scores:\n', 'fire', 'C20.12'),
+    ('off-policy-num-envs-as-conditional-expressions-ok', 'agilerl/training/train_off_policy.py', '    if hasattr(env, "num_envs"):\n        num_envs = env.num_envs\n        is_vectorised = True\n    else:\n        num_envs = 1\n        is_vectorised = False\n',
+     '    num_envs = env.num_envs if hasattr(env, "num_envs") else 1\n    is_vectorised = True if hasattr(env, "num_envs") else False\n', 'silent', None),
+    ('off-policy-single-env-counted-as-two', 'agilerl/training/train_off_policy.py', '    if hasattr(env, "num_envs"):\n        num_envs = env.num_envs\n        is_vectorised = True\n    else:\n        num_envs = 1\n        is_vectorised = False\n',
+     '    num_envs = env.num_envs if hasattr(env, "num_envs") else 2\n    is_vectorised = True if hasattr(env, "num_envs") else False\n', 'fire', 'C20.4'),
 ]
